@@ -174,11 +174,15 @@ func (builder *RuleBuilder) BuildRuleFromResource(name, version string, resource
 	psr.BuildParseTrees = true
 	antlr.ParseTreeWalkerDefault.Walk(listener, psr.Grl())
 
-	grl := listener.Grl
-	for _, ruleEntry := range grl.RuleEntries {
-		err := knowledgeBase.AddRuleEntry(ruleEntry)
-		if err != nil && err.Error() != "rule entry TestNoDesc already exist" {
-			BuilderLog.Tracef("warning while adding rule entry : %s. got %s, possibly already added by antlr listener", ruleEntry.RuleName, err.Error())
+	// the listener has added the rule entries unless the resource has lexer, parser or literal errors, and
+	// then none of its rule entries (possibly malformed ones) may enter the knowledge base
+	if !errReporter.HasError() {
+		grl := listener.Grl
+		for _, ruleEntry := range grl.RuleEntries {
+			err := knowledgeBase.AddRuleEntry(ruleEntry)
+			if err != nil && err.Error() != "rule entry TestNoDesc already exist" {
+				BuilderLog.Tracef("warning while adding rule entry : %s. got %s, possibly already added by antlr listener", ruleEntry.RuleName, err.Error())
+			}
 		}
 	}
 
